@@ -376,7 +376,7 @@ func (e *Executor) startExecution(ctx context.Context, t *ast.Task, execute func
 
 	e.executionHashesMutex.Lock()
 
-	if otherExecutionCtx, ok := e.executionHashes[h]; ok {
+	if otherExecution, ok := e.executionHashes[h]; ok {
 		e.executionHashesMutex.Unlock()
 		e.Logger.VerboseErrf(logger.Magenta, "task: skipping execution of task: %s\n", h)
 
@@ -384,17 +384,19 @@ func (e *Executor) startExecution(ctx context.Context, t *ast.Task, execute func
 		reacquire := e.releaseConcurrencyLimit()
 		defer reacquire()
 
-		<-otherExecutionCtx.Done()
-		return nil
+		// Wait until the other execution has completed (not merely until its
+		// context is cancelled) and report its outcome to this caller too.
+		<-otherExecution.done
+		return otherExecution.err
 	}
 
-	ctx, cancel := context.WithCancel(ctx)
-	defer cancel()
-
-	e.executionHashes[h] = ctx
+	execution := &taskExecution{done: make(chan struct{})}
+	e.executionHashes[h] = execution
 	e.executionHashesMutex.Unlock()
 
-	return execute(ctx)
+	defer close(execution.done)
+	execution.err = execute(ctx)
+	return execution.err
 }
 
 // FindMatchingTasks returns a list of tasks that match the given call. A task
